@@ -320,3 +320,200 @@ def program(r, size=None):
     else:
       out.extend(g.stmt(ctx, 0, 0))
   return "\n".join(out) + "\n"
+
+
+# ---------------------------------------------------------------------------------------------------
+# LARGE code objects: force EXTENDED_ARG wherever it can occur (name / attribute / constant / local indices
+# >= 256, jump distances > 255 code units) and put every kind of instruction with inline cache entries at the END
+# of try / with / loop / match ranges, with small and with >= 256 opargs.
+
+# statements whose last emitted instruction(s) carry inline caches; {A} fresh attribute, {G} fresh global,
+# {L} local, {K} fresh constant
+TAILS_FUNC = [
+    "return o.{A}",                    # LOAD_ATTR
+    "return {G}",                      # LOAD_GLOBAL
+    "return {G}({L})",                 # CALL
+    "return o.{A}({L}, {K})",          # LOAD_ATTR(method) + CALL
+    "return {L} + {G}",                # BINARY_OP
+    "return {L} < o.{A}",              # COMPARE_OP
+    "return {L}[{G}]",                 # BINARY_SUBSCR
+    "return {L}[1:{K}]",               # BINARY_SLICE
+    "return {L} in {G}",               # CONTAINS_OP
+    "return {L} is not {G}",           # IS_OP
+    "return -o.{A}",                   # UNARY
+    "return [*{L}, {G}]",              # LIST_EXTEND / LIST_APPEND
+    "return f'{{{L}}}{{o.{A}!r}}'",    # FORMAT_VALUE / BUILD_STRING
+    "return {K}",                      # RETURN_CONST / LOAD_CONST with big index
+    "return ({L}, o.{A}, {K})",        # BUILD_TUPLE
+]
+TAILS_ANY = [
+    "o.{A} = {L}",                     # STORE_ATTR
+    "{L}[{G}] = {K}",                  # STORE_SUBSCR
+    "{G}.{A}",                         # LOAD_GLOBAL, LOAD_ATTR, POP_TOP
+    "{G}({K})",                        # CALL, POP_TOP
+    "del o.{A}",                       # DELETE_ATTR
+    "del {L}[{G}]",                    # DELETE_SUBSCR
+    "raise {G}(o.{A})",                # CALL + RAISE_VARARGS
+    "raise {G}",                       # LOAD_GLOBAL + RAISE_VARARGS
+    "{L}, {L}x = o.{A}",               # UNPACK_SEQUENCE
+    "{L} += o.{A}",                    # BINARY_OP (inplace) + STORE
+    "assert o.{A}, {G}",               # LOAD_ASSERTION_ERROR ... RAISE
+    "import {G}",                      # IMPORT_NAME
+    "from {G} import {A}",             # IMPORT_FROM
+    "{L} = o.{A} if {G} else {K}",     # conditional: jumps inside the range
+    "{L} = [u.{A} for u in {G} if u]", # inlined comprehension: FOR_ITER with cache inside the range
+    "{L} = lambda: o.{A}",             # MAKE_FUNCTION
+]
+TAILS_GEN = ["yield o.{A}", "{L} = yield {G}", "yield from o.{A}"]
+TAILS_ASYNC = ["await o.{A}", "return await {G}({L})", "{L} = [u async for u in o.{A}]"]
+
+WRAPPERS = ["try-except", "try-finally", "try-except-else-finally", "try-except-star", "with", "with-as-multi",
+            "for-try", "while-try", "match-try", "try-in-try", "try-in-except", "try-in-finally", "if-try-branch",
+            "handler-return-then-branch", "try-for-else", "try-while-break"]
+
+
+class BigGen:
+  """One large function / module body."""
+
+  def __init__(self, r):
+    self.r = r
+    self.n = 0
+
+  def fresh(self, p):
+    self.n += 1
+    return "%s%d" % (p, self.n)
+
+  def tail(self, kind, tails, big):
+    t = self.r.choice(tails)
+    # big: fresh names (index >= 256 after the prelude); small: the first few names of the code object
+    if big:
+      return t.format(A=self.fresh("a"), G=self.fresh("g"), L=self.fresh("v"), K=str(100000 + self.n))
+    return t.format(A="a0", G="g0", L="v0", K="1")
+
+  def prelude(self, n, ind):
+    p = "  " * ind
+    out = []
+    for _ in range(n):
+      i = self.fresh("")
+      out.append(p + "v%s = g%s.a%s + %d" % (i, i, i, 1000 + self.n))
+    return out
+
+  def wrap(self, w, body, ind, in_func, exit_stmt):
+    """`body` is a list of unindented statement texts that becomes the END of the protected range."""
+    r = self.r
+    p = "  " * ind
+    q = p + "  "
+    c = self.fresh("c")
+    B = lambda k=1: ["  " * (ind + k) + s for s in body]
+    pre = [q + "%s.%s()" % (self.fresh("g"), self.fresh("m"))] if r.random() < 0.5 else []
+    h = exit_stmt
+    if w == "try-except":
+      return [p + "try:"] + pre + B() + [p + "except %s:" % self.fresh("E"), q + r.choice(["pass", h, "raise"])]
+    if w == "try-finally":
+      return [p + "try:"] + pre + B() + [p + "finally:", q + "%s()" % self.fresh("g")]
+    if w == "try-except-else-finally":
+      return [p + "try:"] + pre + B() + [p + "except (%s, %s) as ex:" % (self.fresh("E"), self.fresh("E")), q + h,
+                                         p + "else:", q + "%s = 1" % self.fresh("v"),
+                                         p + "finally:", q + "%s()" % self.fresh("g")]
+    if w == "try-except-star":
+      return [p + "try:"] + pre + B() + [p + "except* %s:" % self.fresh("E"), q + "pass"]
+    if w == "with":
+      return [p + "with %s:" % self.fresh("g")] + pre + B()
+    if w == "with-as-multi":
+      return [p + "with %s() as %s, o.%s as %s:" % (self.fresh("g"), self.fresh("v"), self.fresh("a"), self.fresh("v"))] \
+          + pre + B()
+    if w == "for-try":
+      return [p + "for %s in %s:" % (self.fresh("v"), self.fresh("g")), q + "try:"] + B(2) + \
+             [q + "except %s:" % self.fresh("E"), q + "  " + r.choice(["continue", "break", "pass"])]
+    if w == "while-try":
+      return [p + "while %s:" % c, q + "try:"] + B(2) + [q + "finally:", q + "  %s -= 1" % c]
+    if w == "match-try":
+      return [p + "match %s:" % self.fresh("g"), q + "case [%s, *_]:" % self.fresh("v"), q + "  try:"] + B(3) + \
+             [q + "  except %s:" % self.fresh("E"), q + "    pass", q + "case {'k': %s}:" % self.fresh("v")] + B(2) + \
+             [q + "case _:", q + "  pass"]
+    if w == "try-in-try":
+      return [p + "try:", q + "try:"] + B(2) + [q + "except %s:" % self.fresh("E"), q + "  " + h,
+                                                 p + "except %s:" % self.fresh("E"), q + "raise"]
+    if w == "try-in-except":
+      return [p + "try:", q + "%s()" % self.fresh("g"), p + "except %s:" % self.fresh("E"), q + "try:"] + B(2) + \
+             [q + "except %s:" % self.fresh("E"), q + "  pass"]
+    if w == "try-in-finally":
+      return [p + "try:", q + "%s()" % self.fresh("g"), p + "finally:", q + "try:"] + B(2) + \
+             [q + "except %s:" % self.fresh("E"), q + "  pass"]
+    if w == "if-try-branch":
+      # the try body STARTS with a branch and follows a join: block = [SETUP_EXCEPT_311 ... jump]
+      return [p + "if %s:" % c, q + "%s()" % self.fresh("g"), p + "try:", q + "if %s.%s:" % (self.fresh("g"), self.fresh("a"))] + \
+             B(2) + [q + "%s()" % self.fresh("g"), p + "except %s:" % self.fresh("E"), q + h]
+    if w == "handler-return-then-branch":
+      # handlers leave (return/raise); the statement after the try starts with a branch
+      return [p + "try:"] + pre + B() + [p + "except %s:" % self.fresh("E"), q + h,
+                                         p + "except %s:" % self.fresh("E"), q + "raise %s" % self.fresh("E"),
+                                         p + "if %s and %s:" % (self.fresh("g"), self.fresh("g")), q + "%s()" % self.fresh("g"),
+                                         p + "try:", q + "while %s:" % self.fresh("g")] + B(2) + \
+             [p + "except %s:" % self.fresh("E"), q + h]
+    if w == "try-for-else":
+      return [p + "try:", q + "for %s in o.%s:" % (self.fresh("v"), self.fresh("a")), q + "  if %s: break" % self.fresh("g"),
+              q + "else:"] + B(2) + [p + "except %s:" % self.fresh("E"), q + "pass"]
+    if w == "try-while-break":
+      return [p + "try:", q + "while True:", q + "  if %s: break" % self.fresh("g")] + B(2) + \
+             [p + "except %s:" % self.fresh("E"), q + h]
+    raise ValueError(w)
+
+  def function(self, name, kind, big, wrappers):
+    r = self.r
+    head = {"plain": "def %s(o, v0):", "gen": "def %s(o, v0):", "async": "async def %s(o, v0):",
+            "method": "def %s(o, v0):"}[kind] % name
+    out = [head]
+    if big:
+      out += self.prelude(r.randint(300, 330), 1)
+    tails = TAILS_FUNC + TAILS_ANY + (TAILS_GEN if kind == "gen" else []) + (TAILS_ASYNC if kind == "async" else [])
+    exit_stmt = r.choice(["return", "return o.%s" % self.fresh("a"), "raise"]) if kind != "gen" else "return"
+    # an enclosing loop / long if-elif chain so that the jumps over the constructs exceed 255 code units
+    out.append("  while %s:" % self.fresh("g"))
+    first = True
+    for w in wrappers:
+      for t in r.sample(tails, 3):
+        body = [t.format(A=self.fresh("a"), G=self.fresh("g"), L=self.fresh("v"), K=str(100000 + self.n))
+                if big else t.format(A="a0", G="g0", L="v0", K="1")]
+        if "global " in body[0] and not big:
+          body = ["o.a0 = v0"]
+        out.append("    %s %s:" % ("if" if first else "elif", self.fresh("g")))
+        first = False
+        out += self.wrap(w, body, 3, True, exit_stmt)
+    out.append("    else:")
+    out.append("      break")
+    if kind == "gen":
+      out.append("  yield v0")
+    out.append("  return v0" if kind != "gen" else "  return")
+    return out
+
+
+def big_program(r, big=True):
+  """A module with one large function per few wrappers (plain / generator / async), optionally a large module body."""
+  g = BigGen(r)
+  ws = list(WRAPPERS)
+  r.shuffle(ws)
+  out = []
+  k = 0
+  for kind in ("plain", "gen", "async"):
+    take = ws[k:k + 5] if kind == "plain" else r.sample(WRAPPERS, 3)
+    k += 5
+    out += g.function("big_%s" % kind, kind, big, take)
+    out.append("")
+  # the remaining wrappers in a second plain function
+  out += g.function("big_rest", "plain", big, ws[5:])
+  out.append("")
+  if r.random() < 0.5:
+    # large module body: STORE_NAME / LOAD_NAME with indices >= 256
+    if big:
+      out += g.prelude(300, 0)
+    for w in r.sample(WRAPPERS, 4):
+      t = r.choice(TAILS_ANY)
+      body = [t.format(A=g.fresh("a"), G=g.fresh("g"), L=g.fresh("v"), K=str(100000 + g.n))]
+      if "global " in body[0]:
+        body = ["o.%s = 1" % g.fresh("a")]
+      if w in ("for-try",):
+        out += g.wrap(w, body, 0, False, "pass")
+      else:
+        out += g.wrap(w, body, 0, False, "raise")
+  return "\n".join(out) + "\n"
